@@ -68,6 +68,12 @@ fn nontrivial(prop: &str, r: &RunResult) -> bool {
 fn verdict(prop: &str, r: &RunResult) -> (&'static str, String) {
     let mine: Vec<_> = r.violations.iter().filter(|v| v.prop == prop).collect();
     if !mine.is_empty() {
+        // the scheduler's solver has a wall-clock limit (5 s); a run in which it fired did not
+        // happen in virtual time and cannot be replayed, so whatever it shows decides nothing
+        let limited = r.monitors.coverage.get("sched.result.1").copied().unwrap_or(0) + r.monitors.coverage.get("sched.result.2").copied().unwrap_or(0);
+        if limited > 0 {
+            return ("inconclusive", "solver-hit-its-wall-clock-limit".into());
+        }
         return ("violated", mine[0].rule.clone());
     }
     match &r.outcome {
@@ -119,6 +125,34 @@ fn compact_sample(r: &RunResult) -> serde_json::Value {
         .take(80)
         .collect();
     json!({"seed": r.seed, "n_actions": r.actions.len(), "outcome": format!("{:?}", r.outcome), "actions_head": actions, "journal_events_head": events})
+}
+
+/// The last observations of a run, kept next to a witness so that a run that does not replay
+/// the same way (real time leaking in) can still be read.
+pub fn obs_tail(r: &RunResult, n: usize) -> Vec<String> {
+    let from = r.log.len().saturating_sub(n);
+    r.log[from..]
+        .iter()
+        .map(|(step, o)| {
+            let s = serde_json::to_string(o).unwrap_or_default();
+            format!("{step} {}", if s.len() > 300 { format!("{}…", s.chars().take(300).collect::<String>()) } else { s })
+        })
+        .collect()
+}
+
+pub fn save_replay_with_tail(dir: &str, prop: &str, sig: &str, seed: u64, actions: &[Action], tail: &[String], note: &str) -> String {
+    std::fs::create_dir_all(dir).ok();
+    let clean: String = sig
+        .chars()
+        .map(|c| if c.is_ascii_alphanumeric() || c == '-' { c } else { '_' })
+        .take(60)
+        .collect();
+    let path = format!("{dir}/{prop}-{clean}-{seed}.json");
+    let _ = std::fs::write(
+        &path,
+        serde_json::to_string(&json!({"prop": prop, "signature": sig, "actions": actions, "note": note, "last_observations_of_the_original_run": tail})).unwrap(),
+    );
+    path
 }
 
 pub fn save_replay(dir: &str, prop: &str, sig: &str, seed: u64, actions: &[Action]) -> String {
@@ -202,6 +236,45 @@ pub fn main(args: &[String]) -> i32 {
                 samples.push(compact_sample(&r));
             }
         }
+        let mut v = v;
+        if v == "violated" && r.panics.is_empty() {
+            // A violation counts only if its witness shows it again: the simulation runs in virtual
+            // time and is deterministic, so a run that cannot be repeated was shaped by something
+            // outside the model (wall clock). Three attempts, then the run decides nothing.
+            let mut again = false;
+            for _ in 0..3 {
+                let rr = run_in_runtime(
+                    Source::Replay {
+                        actions: r.actions.clone(),
+                        profile: profile.clone(),
+                    },
+                    true,
+                );
+                if rr.violations.iter().any(|x| x.prop == prop) || (prop == "C09" && !rr.panics.is_empty()) {
+                    again = true;
+                    break;
+                }
+            }
+            if !again {
+                let sig = r.violations.iter().find(|x| x.prop == prop).map(|x| x.rule.clone()).unwrap_or_default();
+                let path = save_replay_with_tail(
+                    &replay_dir,
+                    &prop,
+                    &format!("unreproduced-{sig}"),
+                    r.seed,
+                    &r.actions,
+                    &obs_tail(&r, 80),
+                    "the monitors reported this signature in the original run, three replays of the same actions did not show any violation of the property",
+                );
+                *verdicts.entry("violated".to_string()).or_insert(0) -= 1;
+                *verdicts.entry("inconclusive".to_string()).or_insert(0) += 1;
+                *inconclusive.entry(format!("violation-not-reproduced-on-replay:{sig}")).or_insert(0) += 1;
+                if inconclusive_witnesses.len() < 6 {
+                    inconclusive_witnesses.push(json!({"signature": format!("unreproduced-{sig}"), "replay": path}));
+                }
+                v = "inconclusive";
+            }
+        }
         if v == "violated" {
             // all violations of this property in the run
             let mut sigs: Vec<(String, String)> = r
@@ -229,7 +302,7 @@ pub fn main(args: &[String]) -> i32 {
                 } else {
                     r.actions.clone()
                 };
-                let path = save_replay(&replay_dir, &prop, &sig, r.seed, &actions);
+                let path = save_replay_with_tail(&replay_dir, &prop, &sig, r.seed, &actions, &obs_tail(&r, 40), "");
                 violations.push(json!({"signature": sig, "detail": detail, "seed": r.seed, "source": source, "replay": path, "n_actions": actions.len()}));
             }
         }
@@ -288,7 +361,7 @@ pub fn main(args: &[String]) -> i32 {
         "steps": total_steps,
         "verdicts": verdicts,
         "inconclusive": inconclusive,
-        "extra": {"witnesses of panics seen by this property's runs (judged by C09)": inconclusive_witnesses},
+        "extra": {"witnesses of inconclusive runs (repository panics seen here are judged by C09; `unreproduced-*` did not show again on replay)": inconclusive_witnesses},
         "nontrivial": n_nontrivial,
         "hashes": hashes.iter().collect::<Vec<_>>(),
         "coverage": coverage,
